@@ -100,7 +100,7 @@ func (ex *Exec) abstractSort(t types.Type) (Sort, bool) {
 			switch kind {
 			case "real":
 				res = absRes{SReal, true}
-			case "int":
+			case "int", "felt":
 				res = absRes{SInt, true}
 			}
 		}
@@ -181,6 +181,10 @@ func (ex *Exec) zeroValue(t types.Type) Value {
 // freshValue builds a fully symbolic value of type t; leaves are named name+path.
 func (ex *Exec) freshValue(name string, t types.Type) Value {
 	if s, ok := ex.abstractSort(t); ok {
+		if ex.absKind(t) == "felt" {
+			q := ex.feltModulus(t)
+			return ex.newVar(name, SInt, bigZero, new(big.Int).Sub(q, bigOne))
+		}
 		return ex.newVar(name, s, nil, nil)
 	}
 	switch u := t.Underlying().(type) {
@@ -301,6 +305,16 @@ func (ex *Exec) load(st *PState, p Value) Value {
 			ex.panicObligation(st, ex.ts.Bool(true), "nil pointer dereference")
 			return nil
 		}
+		if q.Sub != nil {
+			return ex.loadSub(st, q)
+		}
+		if q.Limb != 0 {
+			cur, ok := walk(ex.objValue(st, q.Obj), q.Path).(*Term)
+			if ok && cur.isZero() {
+				return ex.ts.Int64(0)
+			}
+			fail("limb access into abstracted element (only zero elements may be accessed by limb)")
+		}
 		return walk(ex.objValue(st, q.Obj), q.Path)
 	case *ChoiceV:
 		var res Value
@@ -313,7 +327,12 @@ func (ex *Exec) load(st *PState, p Value) Value {
 				ex.panicObligation(st, a.G, "nil pointer dereference")
 				continue
 			}
-			v := walk(ex.objValue(st, pv.Obj), pv.Path)
+			var v Value
+			if pv.Sub != nil {
+				v = ex.loadSub(st, pv)
+			} else {
+				v = walk(ex.objValue(st, pv.Obj), pv.Path)
+			}
 			if first {
 				res = v
 				first = false
@@ -335,6 +354,18 @@ func (ex *Exec) store(st *PState, p Value, v Value) {
 			return
 		}
 		ex.checkWritable(st, q.Obj, ex.ts.Bool(true))
+		if q.Sub != nil {
+			ex.storeSub(st, q, v)
+			return
+		}
+		if q.Limb != 0 {
+			cur, ok := walk(ex.objValue(st, q.Obj), q.Path).(*Term)
+			vt, ok2 := v.(*Term)
+			if ok && ok2 && cur.isZero() && vt.isZero() {
+				return
+			}
+			fail("limb store into abstracted element (only zero-initialisation is supported)")
+		}
 		cur := ex.objValue(st, q.Obj)
 		st.heap.Set(q.Obj, update(cur, q.Path, v))
 	case *ChoiceV:
@@ -345,6 +376,11 @@ func (ex *Exec) store(st *PState, p Value, v Value) {
 				continue
 			}
 			ex.checkWritable(st, pv.Obj, a.G)
+			if pv.Sub != nil {
+				old := ex.loadSub(st, pv)
+				ex.storeSub(st, pv, ex.mergeVal(a.G, v, old))
+				continue
+			}
 			cur := ex.objValue(st, pv.Obj)
 			old := walk(cur, pv.Path)
 			st.heap.Set(pv.Obj, update(cur, pv.Path, ex.mergeVal(a.G, v, old)))
@@ -409,7 +445,7 @@ func (ex *Exec) mergeVal(g *Term, a, b Value) Value {
 			return n
 		}
 	case *PtrV:
-		if y, ok := b.(*PtrV); ok && x.Obj == y.Obj && samePath(x.Path, y.Path) {
+		if y, ok := b.(*PtrV); ok && x.Obj == y.Obj && samePath(x.Path, y.Path) && sameSub(x.Sub, y.Sub) {
 			return x
 		}
 	case *SliceV:
@@ -516,7 +552,7 @@ func sameSimple(a, b Value) bool {
 	switch x := a.(type) {
 	case *PtrV:
 		y, ok := b.(*PtrV)
-		return ok && x.Obj == y.Obj && samePath(x.Path, y.Path)
+		return ok && x.Obj == y.Obj && samePath(x.Path, y.Path) && sameSub(x.Sub, y.Sub)
 	case *SliceV:
 		y, ok := b.(*SliceV)
 		return ok && x.Obj == y.Obj && samePath(x.Path, y.Path) && x.Off == y.Off && x.Len == y.Len && x.Cap == y.Cap
@@ -635,4 +671,26 @@ func (ex *Exec) forAlts(v Value, f func(g *Term, v Value) Value) Value {
 		}
 	}
 	return res
+}
+
+
+func (ex *Exec) loadSub(st *PState, p *PtrV) Value {
+	arr := walk(ex.objValue(st, p.Obj), p.Path).(*ArrayV)
+	out := &ArrayV{E: make([]Value, p.Sub.N)}
+	for i := range out.E {
+		out.E[i] = ex.selectElem(arr.E, ex.ts.Add(p.Sub.Off, ex.ts.Int64(int64(i))))
+	}
+	return out
+}
+
+func (ex *Exec) storeSub(st *PState, p *PtrV, v Value) {
+	av, ok := v.(*ArrayV)
+	if !ok || len(av.E) != p.Sub.N {
+		fail("store of %T through sub-array pointer", v)
+	}
+	arr := walk(ex.objValue(st, p.Obj), p.Path).(*ArrayV)
+	for i := range av.E {
+		ep := ex.elemPtr(st, p.Obj, p.Path, ex.ts.Add(p.Sub.Off, ex.ts.Int64(int64(i))), len(arr.E))
+		ex.store(st, ep, av.E[i])
+	}
 }
